@@ -28,7 +28,8 @@ CONSTANTS
   Reqs,        \* menu of request records the client may send
   MaxBatches,  \* number of client writes
   MaxPerBatch, \* pipelined requests per write
-  ClientEnds   \* how the client ends: subset of {"close", "wait"}
+  ClientEnds   \* how the client ends: subset of {"close", "stall"}; a stalling client neither sends
+               \* nor closes, so the server's ReadTimeout / IdleTimeout ends the connection
 
 VARIABLES
   cfg,       \* chosen configuration
@@ -43,10 +44,11 @@ VARIABLES
   sentCount, \* requests sent so far
   srvClosed, \* server closed the connection
   cliClosed, \* client closed the connection
+  cliStalled,\* client stopped sending without closing
   hij,       \* hijack record or "none"
   log        \* merged history of client writes and state callbacks: <<"w", k>> | <<"s", state, reqIndex>>
 
-vars == <<cfg, phase, wire, batches, cur, n, states, resps, disp, sentCount, srvClosed, cliClosed, hij, log>>
+vars == <<cfg, phase, wire, batches, cur, n, states, resps, disp, sentCount, srvClosed, cliClosed, cliStalled, hij, log>>
 
 NoHij == [on |-> FALSE, rest |-> <<>>, keep |-> FALSE]
 NoReq == [ver |-> "-", conn |-> "-", kind |-> "-", hclose |-> FALSE]
@@ -83,7 +85,7 @@ Init ==
   /\ cfg \in Cfgs
   /\ phase = "accepted" /\ wire = <<>> /\ batches = <<>> /\ cur = NoReq /\ n = 0
   /\ states = <<>> /\ resps = <<>> /\ disp = <<>> /\ sentCount = 0
-  /\ srvClosed = FALSE /\ cliClosed = FALSE /\ hij = NoHij /\ log = <<>>
+  /\ srvClosed = FALSE /\ cliClosed = FALSE /\ cliStalled = FALSE /\ hij = NoHij /\ log = <<>>
 
 \* Serve reports StateNew when it accepts; ServeConn is handed the connection by the caller
 Accept ==
@@ -91,33 +93,62 @@ Accept ==
   /\ phase' = "wait"
   /\ states' = Append(states, "new")
   /\ log' = Append(log, <<"s", "new", 0>>)
-  /\ UNCHANGED <<cfg, wire, batches, cur, n, resps, disp, sentCount, srvClosed, cliClosed, hij>>
+  /\ UNCHANGED <<cfg, wire, batches, cur, n, resps, disp, sentCount, srvClosed, cliClosed, cliStalled, hij>>
 
 \* the client writes a batch of 1..MaxPerBatch requests in one write; it only writes while the
 \* server is waiting for input with nothing pending (so that executions are replayable)
 ClientSend(b) ==
-  /\ phase \in {"wait", "idle"} /\ wire = <<>> /\ ~cliClosed /\ ~srvClosed
+  /\ phase \in {"wait", "idle"} /\ wire = <<>> /\ ~cliClosed /\ ~cliStalled /\ ~srvClosed
   /\ Len(batches) < MaxBatches
+  /\ \A i \in 1..(Len(b) - 1) : b[i].kind # "partial"     \* nothing can follow half a head
   /\ wire' = b
   /\ batches' = Append(batches, b)
   /\ sentCount' = sentCount + Len(b)
   /\ log' = Append(log, <<"w", Len(batches) + 1>>)
-  /\ UNCHANGED <<cfg, phase, cur, n, states, resps, disp, srvClosed, cliClosed, hij>>
+  /\ UNCHANGED <<cfg, phase, cur, n, states, resps, disp, srvClosed, cliClosed, cliStalled, hij>>
 
 \* the client closes while the server waits for a request
 ClientClose ==
   /\ "close" \in ClientEnds
-  /\ phase \in {"wait", "idle"} /\ wire = <<>> /\ ~cliClosed /\ ~srvClosed
+  /\ phase \in {"wait", "idle"} /\ wire = <<>> /\ ~cliClosed /\ ~cliStalled /\ ~srvClosed
   /\ cliClosed' = TRUE
-  /\ UNCHANGED <<cfg, phase, wire, batches, cur, n, states, resps, disp, sentCount, srvClosed, hij, log>>
+  /\ UNCHANGED <<cfg, phase, wire, batches, cur, n, states, resps, disp, sentCount, srvClosed, cliStalled, hij, log>>
 
-\* the server sees EOF (or the idle timeout fires) while waiting: it closes without a response
+\* the client goes silent while the server waits for a request
+ClientStall ==
+  /\ "stall" \in ClientEnds
+  /\ phase \in {"wait", "idle"} /\ wire = <<>> /\ ~cliClosed /\ ~cliStalled /\ ~srvClosed
+  /\ cliStalled' = TRUE
+  /\ UNCHANGED <<cfg, phase, wire, batches, cur, n, states, resps, disp, sentCount, srvClosed, cliClosed, hij, log>>
+
+\* ReadTimeout while waiting for the first request: error response, then close.
+\* IdleTimeout on a keep-alive connection: close without a response.  No byte was received,
+\* so neither reports StateActive.
+SrvTimeout ==
+  /\ phase \in {"wait", "idle"} /\ wire = <<>> /\ cliStalled
+  /\ resps' = IF phase = "wait" THEN Append(resps, [status |-> 408, conn |-> "close"]) ELSE resps
+  /\ phase' = "closed" /\ srvClosed' = TRUE
+  /\ states' = Append(states, "closed")
+  /\ log' = Append(log, <<"s", "closed", n>>)
+  /\ UNCHANGED <<cfg, wire, batches, cur, n, disp, sentCount, cliClosed, cliStalled, hij>>
+
+\* half a request head arrived (so the connection is active), then nothing: ReadTimeout ->
+\* error response, close
+HeadTimeout ==
+  /\ phase = "active" /\ cur.kind = "partial"
+  /\ resps' = Append(resps, [status |-> 408, conn |-> "close"])
+  /\ phase' = "closed" /\ srvClosed' = TRUE
+  /\ states' = Append(states, "closed")
+  /\ log' = Append(log, <<"s", "closed", n>>)
+  /\ UNCHANGED <<cfg, wire, batches, cur, n, disp, sentCount, cliClosed, cliStalled, hij>>
+
+\* the server sees EOF while waiting: it closes without a response
 SrvSeesEnd ==
   /\ phase \in {"wait", "idle"} /\ wire = <<>> /\ cliClosed
   /\ phase' = "closed" /\ srvClosed' = TRUE
   /\ states' = Append(states, "closed")
   /\ log' = Append(log, <<"s", "closed", n>>)
-  /\ UNCHANGED <<cfg, wire, batches, cur, n, resps, disp, sentCount, cliClosed, hij>>
+  /\ UNCHANGED <<cfg, wire, batches, cur, n, resps, disp, sentCount, cliClosed, cliStalled, hij>>
 
 \* first byte of the next request has been received: StateActive
 FirstByte ==
@@ -128,7 +159,7 @@ FirstByte ==
   /\ wire' = Tail(wire)
   /\ states' = Append(states, "active")
   /\ log' = Append(log, <<"s", "active", n + 1>>)
-  /\ UNCHANGED <<cfg, batches, resps, disp, sentCount, srvClosed, cliClosed, hij>>
+  /\ UNCHANGED <<cfg, batches, resps, disp, sentCount, srvClosed, cliClosed, cliStalled, hij>>
 
 \* malformed head: error response with Connection: close, then close
 HeadBad ==
@@ -137,18 +168,18 @@ HeadBad ==
   /\ phase' = "closed" /\ srvClosed' = TRUE
   /\ states' = Append(states, "closed")
   /\ log' = Append(log, <<"s", "closed", n>>)
-  /\ UNCHANGED <<cfg, wire, batches, cur, n, disp, sentCount, cliClosed, hij>>
+  /\ UNCHANGED <<cfg, wire, batches, cur, n, disp, sentCount, cliClosed, cliStalled, hij>>
 
 HeadOk ==
-  /\ phase = "active" /\ cur.kind # "bad"
+  /\ phase = "active" /\ cur.kind \notin {"bad", "partial"}
   /\ phase' = "handler"
-  /\ UNCHANGED <<cfg, wire, batches, cur, n, states, resps, disp, sentCount, srvClosed, cliClosed, hij, log>>
+  /\ UNCHANGED <<cfg, wire, batches, cur, n, states, resps, disp, sentCount, srvClosed, cliClosed, cliStalled, hij, log>>
 
 Handler ==
   /\ phase = "handler"
   /\ disp' = Append(disp, n)
   /\ phase' = "respond"
-  /\ UNCHANGED <<cfg, wire, batches, cur, n, states, resps, sentCount, srvClosed, cliClosed, hij, log>>
+  /\ UNCHANGED <<cfg, wire, batches, cur, n, states, resps, sentCount, srvClosed, cliClosed, cliStalled, hij, log>>
 
 IsHijack(r) == r.kind \in {"hijack", "hijacknr"}
 
@@ -180,12 +211,12 @@ Respond ==
              /\ states' = Append(states, "idle")
              /\ log' = Append(log, <<"s", "idle", n>>)
              /\ UNCHANGED <<srvClosed, hij>>
-  /\ UNCHANGED <<cfg, wire, batches, cur, n, disp, sentCount, cliClosed>>
+  /\ UNCHANGED <<cfg, wire, batches, cur, n, disp, sentCount, cliClosed, cliStalled>>
 
 Next ==
   \/ Accept
   \/ \E k \in 1..MaxPerBatch : \E b \in [1..k -> Reqs] : ClientSend(b)
-  \/ ClientClose \/ SrvSeesEnd \/ FirstByte \/ HeadBad \/ HeadOk \/ Handler \/ Respond
+  \/ ClientClose \/ ClientStall \/ SrvTimeout \/ HeadTimeout \/ SrvSeesEnd \/ FirstByte \/ HeadBad \/ HeadOk \/ Handler \/ Respond
 
 Spec == Init /\ [][Next]_vars
 
@@ -219,7 +250,7 @@ CloseIffHeader ==
   \A i \in DOMAIN resps :
      (resps[i].conn = "close") => (i = Len(resps) /\ (srvClosed \/ hij.on))
 ClosedOnlyAfterClose ==
-  (srvClosed /\ ~cliClosed) => (resps # <<>> /\ resps[Len(resps)].conn = "close")
+  (srvClosed /\ ~cliClosed /\ ~cliStalled) => (resps # <<>> /\ resps[Len(resps)].conn = "close")
 
 \* C10: HTTP/1.0 keep-alive responses carry Connection: keep-alive
 \* C01/C02 interface: requests are dispatched in order, each at most once
